@@ -229,7 +229,16 @@ def k_many(ctx, seed):
     specs = specs[:400]
     v = PusVerificator()
     tcs = {}
-    for (a, c, ver, fl) in specs:
+    finished_keys = []
+    from spacepackets.ecss.pus_1_verification import create_acceptance_failure_tm, FailureNotice
+    from spacepackets.ecss.fields import PacketFieldEnum
+    for n_reg, (a, c, ver, fl) in enumerate(specs):
+        if n_reg in (40, 250, 255, 256, 257, 300) and tcs:
+            # some telecommands finish (acceptance failure) while the tracker keeps growing: nothing but the explicit removal
+            # calls may take them out again
+            for key in r.sample(list(tcs), 3):
+                attempt(v.add_tm, create_acceptance_failure_tm(0x33, tcs[key], FailureNotice(PacketFieldEnum.with_byte_size(1, 5), b""), b""))
+                finished_keys.append(key)
         h = SpacePacketHeader(PacketType.TC, a, c, 6, True, SequenceFlags(fl), ver)
         tc = PusTc.from_composite_fields(h, PusTcDataFieldHeader(17, 1), b"")
         key = int.from_bytes(bytes(tc.pack())[:4], "big")
@@ -238,6 +247,9 @@ def k_many(ctx, seed):
         if not ctx.check("tracker.add_tc", ok and res is True, "distinct_telecommand_refused_as_duplicate", "many", dict(case, spec=[a, c, ver, fl]), observed=repr(res)):
             return
         tcs[key] = tc
+        if finished_keys and not ctx.check("tracker.state", len(v.verif_dict) == len(tcs), "verif_dict_differs_from_model", "many/entry_vanished_without_removal", dict(case, registered=len(tcs)),
+                                           entries=len(v.verif_dict), expected=len(tcs)):
+            return
     ctx.check("tracker.state", len(v.verif_dict) == len(tcs) and {int.from_bytes(bytes(k.pack()), "big") for k in v.verif_dict} == set(tcs), "verif_dict_differs_from_model", "many/presence", case,
               entries=len(v.verif_dict), expected=len(tcs))
     keys = list(tcs)
